@@ -7,16 +7,17 @@
    The same family is also checked EXHAUSTIVELY (MC_all*.cfg: Impl => Abstract over all universes). *)
 EXTENDS MCConsNet, Json
 
-CONSTANTS SLen, Garbage
+CONSTANTS SLen, Garbage, WithInv
 VARIABLE hist
 
 Msgs(p) == {XM(x) : x \in {x \in X : Cls[x] # "bad" \/ p \in Garbage}} \cup {TM(t) : t \in Named} \cup {GM(Req)}
+           \cup (IF WithInv THEN {IM(Req)} ELSE {})
 Seqs(p) == UNION {[1..k -> Msgs(p)] : k \in 0..SLen}
 HoldSets == {h \in [Peers -> SUBSET Named] : \A t \in Named : \E p \in Peers : t \in h[p]}
 MuteSets == {{}} \cup {{p} : p \in Peers \ Garbage}
 Scripts == {sc \in [Peers -> UNION {Seqs(p) : p \in Peers}] :
                /\ \A p \in Peers : sc[p] \in Seqs(p)
-               /\ \E p \in Peers : \E i \in DOMAIN sc[p] : sc[p][i] = XM(Req)}
+               /\ \E p \in Peers : \E i \in DOMAIN sc[p] : sc[p][i] \in {XM(Req), IM(Req)}}
 AllUniverses == {[holds |-> h, mute |-> mu, script |-> sc] : h \in HoldSets, mu \in MuteSets, sc \in Scripts}
 
 Idle == svcq = <<>> /\ txin = {} /\ pc # "looked"
